@@ -5,3 +5,4 @@
 -/
 import VK.Props.C09
 import VK.Props.C09Status
+import VK.Props.C09Single
